@@ -948,6 +948,21 @@ class Tifa(TifaCore, ast.NodeVisitor):
             self._visit_nodes(node.generators)
             return ListType(False, self.visit(node.elt))
 
+    def visit_NamedExpr(self, node):
+        """
+        Assignment expression (walrus): the target name is stored with the
+        type of the value, which is also the type of the whole expression.
+
+        Args:
+            node (ast.NamedExpr):
+
+        Returns:
+            Type: The type of the value
+        """
+        value_type = self.visit(node.value)
+        self.assign_target(node.target, value_type)
+        return value_type
+
     def visit_NameConstant(self, node):
         """
 
